@@ -6,7 +6,7 @@ from . import resolve_common as R
 from .c04 import model_chain
 
 CLAIM = dict(
-    text="Coq theorems on the model of MultiTypeMap[(caller_code, *types)] (Model/Resolve.v lookup_next: the continuation entries resolve() writes, read back through __missing__'s leading-code-object path), for every hierarchy, method list, key and caller: a caller met while walking down single-handler ranks gets the first rank of what lies below it (C07_next_is_below), which is exactly the resolution of the call's candidate list minus the caller and everything ranked above it (C07_next_is_lookup_without_above; the stable sort commutes with removal and _pull restarts clean), on calls whose classes fall under pairwise comparable registered types (every call under single inheritance) that is the documented rule's verdict for the function holding only the remaining methods -- the property's own statement (C07_next_is_reduced_function); and a caller that is not a candidate for the key gets a fresh lookup (C07_foreign_caller). The whole walk is C07_walk_in_sorted_order: when every candidate dominates all those sorted after it, the call runs the first, call_next from the i-th runs the (i+1)-th and from the last reports 'No method' (each applicable method at most once, in non-increasing rank); where a rank is tied the walk ends with the ambiguity (C07_next_is_below). Tie to /repo: generated programs in which random subsets of methods delegate with call_next; the whole visit order of each outer call is compared with the model's chain, and -- the property oracle, independent of the model -- each step is compared with a fresh function from which the methods visited so far were removed; deviations must be KF-01's (removal changes the levels of unrelated classes: call outside chain_applicable).",
+    text="Coq theorems on the model of MultiTypeMap[(caller_code, *types)] (Model/Resolve.v lookup_next: the continuation entries resolve() writes, read back through __missing__'s leading-code-object path), for every hierarchy, method list, key and caller: a caller met while walking down single-handler ranks gets the first rank of what lies below it (C07_next_is_below), which is exactly the resolution of the call's candidate list minus the caller and everything ranked above it (C07_next_is_lookup_without_above; the stable sort commutes with removal and _pull restarts clean), on calls whose classes fall under pairwise comparable registered types (every call under single inheritance) that is the documented rule's verdict for the function holding only the remaining methods -- the property's own statement (C07_next_is_reduced_function); and a caller that is not a candidate for the key gets a fresh lookup (C07_foreign_caller). The whole walk is C07_walk_in_sorted_order: when every candidate dominates all those sorted after it, the call runs the first, call_next from the i-th runs the (i+1)-th and from the last reports 'No method' (each applicable method at most once, in non-increasing rank); where a rank is tied the walk ends with the ambiguity (C07_next_is_below). Tie to /repo: generated programs in which random subsets of methods delegate with call_next; the whole visit order of each outer call is compared with the model's chain, and -- the property oracle, independent of the model -- each step is compared with a fresh function from which the methods visited so far were removed; deviations must be KF-01's (removal changes the levels of unrelated classes: call outside chain_applicable). Walks through ranks that hold value-dependent methods (two positions: a class chain four deep against int with user conditions and Literals, every body delegating): the visit order against the Dep model's continuation, and each step against the documented rule applied to the methods not yet visited (a passed-over value-dependent rank-mate is KF-08).",
     note="Trusted: as C02. Outside chain-applicable calls the theorem keeps the specificity tuples of the original call (removing methods can change them: KF-01); dependent ranks are C10's subject.",
     technique="Coq proof (stable-sort/filter commutation, _pull prefix lemma) + differential correspondence of visit orders", design="6 C07")
 
@@ -212,8 +212,95 @@ def check_shared_def(ctx, prog, stats):
                 return
 
 
+# ---------------------------------------------------------------- walks through ranks that hold value-dependent methods
+def gen_dep_walk(rng):
+    """two positions: a class chain L1 > L2 > L3 > L4 (plus an unrelated class) at one, int with value-dependent types at
+    the other; 4-8 methods drawn from the grid, every body delegates with call_next.  Ranks then hold several methods (a
+    value-dependent one ties with whatever it does not dominate), members of one rank are not adjacent in the sorted
+    candidate list, and the walk goes on below them"""
+    from . import dep_common as D
+    from ..world import enc_val
+    spec = [{"kind": "plain", "bases": [], "meths": []}, {"kind": "plain", "bases": [0], "meths": []},
+            {"kind": "plain", "bases": [1], "meths": []}, {"kind": "plain", "bases": [2], "meths": []},
+            {"kind": "plain", "bases": [], "meths": []}]
+    from ..world import World
+    w = World(spec)
+    L = w.user_ids()
+    ints = [1, 2, 3, 7]
+    utab = {"10": [enc_val(v) for v in ints if rng.random() < 0.6], "11": [enc_val(v) for v in ints if rng.random() < 0.6]}
+    dep_col = [[0, D.INT], [0, D.INT], [0, 0], [9, 10, [0, D.INT]], [9, 11, [0, D.INT]], [8, [0, D.INT], enc_val(2), enc_val(7)]]
+    cls_col = [[0, c] for c in L[:4]] + [[0, 0]]
+    swap = rng.random() < 0.5
+    seen, defs = set(), []
+    for i in range(rng.randint(4, 8)):
+        a, b_ = rng.choice(cls_col), rng.choice(dep_col)
+        if json.dumps([a, b_]) in seen:
+            continue
+        seen.add(json.dumps([a, b_]))
+        defs.append({"id": i, "pos": [b_, a] if swap else [a, b_], "npos_req": 2, "kw": [], "prio": rng.choice([0, 0, 0, 0, 1]), "body": "next"})
+    defs.append({"id": 20, "pos": [[0, 0], [0, 0]], "npos_req": 2, "kw": [], "prio": 0, "body": "ret" if rng.random() < 0.5 else "next"})
+    calls = []
+    for _ in range(8):
+        cv = enc_val(w.instance(rng.choice(L[1:4]), 0), w)
+        iv = enc_val(rng.choice(ints))
+        calls.append({"vals": [iv, cv] if swap else [cv, iv]})
+    return {"spec": spec, "defs": defs, "utab": utab, "calls": calls, "dep_walk": True}
+
+
+def check_dep_walk(ctx, prog, stats):
+    from . import dep_common as D
+    from ..world import dec_val
+    w = world_from(prog["spec"])
+    defs, utab = prog["defs"], prog["utab"]
+    b = progs.Built(w, defs, utab=utab)
+    mms = R.model_defs(defs)
+    ut = [[int(f)] + vals for f, vals in utab.items()]
+    byid = {d["id"]: d for d in defs}
+    for call in prog["calls"]:
+        vs = [dec_val(e, w) for e in call["vals"]]
+        out, entered = b.call(vs)
+        out = D.impl_kind(out)
+        stats["evaluations"] += 1
+        stats["dep_walks"] += 1
+        stats["chain_lengths"][len(entered)] += 1
+        case = dict(prog, calls=[call])
+        key = [[[0, D.cls_of_value(w, v)] for v in vs], []]
+        args = D.slot_args(call["vals"])
+        mo_entered = []
+        cur = D.dec_dout(model.run_cases([[20, w.encode(), ut, mms, [[0, key, args]]]])[0][0])
+        for _ in range(12):
+            if cur[0] != "run":
+                break
+            mo_entered.append(cur[1])
+            if byid[cur[1]].get("body") != "next":
+                break
+            cur = D.dec_dout(model.run_cases([[20, w.encode(), ut, mms, [[1, cur[1], key, args]]]])[0][0])
+        same = (out, entered) == (cur, mo_entered) or (out[0] == "run" and cur[0] == "run" and entered == mo_entered)
+        if not same:
+            ctx.violation(f"call_next walk through value-dependent ranks: implementation {(out, entered)} != model {(cur, mo_entered)}", case, kind="correspondence")
+        # the property's own statement, asked of the implementation alone: every step = the choice of the function that
+        # holds only the methods not yet visited and not ranked above the caller; decided here only where that reduced
+        # function has no value-dependent sibling of the caller left (KF-08) and the rule names a single method
+        for i in range(len(entered) - 1):
+            caller = byid[entered[i]]
+            rest = [dict(d, body="ret") for d in defs if d["id"] not in entered[:i + 1] and d["prio"] <= caller["prio"]]
+            exp = D.py_spec_dep(w, b, rest, vs)
+            if exp is None or exp[0] != "run":
+                continue
+            stats["oracle_steps"] += 1
+            if exp[1] != entered[i + 1]:
+                skipped = byid[exp[1]]
+                if any(D.is_dep_enc(t) for t in skipped["pos"]) and skipped["prio"] == caller["prio"] and same:
+                    ctx.known_hit("KF-08", case)       # a value-dependent rank-mate of the caller is passed over
+                elif same and D.kf01_shape(w, b, rest, vs, ["run", entered[i + 1]]):
+                    ctx.known_hit("KF-01", case)
+                else:
+                    ctx.violation(f"call_next from method {entered[i]} reached {entered[i + 1]}; of the methods not yet visited the documented rule selects {exp[1]}", case)
+                break
+
+
 def run(ctx):
-    stats = {"other_class_walks": 0, "shared_walks": 0, "shared_def_walks": 0, "kf55": 0, "evaluations": 0, "programs": 0, "oracle_steps": 0, "kf01": 0, "nontrivial": set(), "chain_lengths": collections.Counter()}
+    stats = {"other_class_walks": 0, "shared_walks": 0, "shared_def_walks": 0, "kf55": 0, "evaluations": 0, "programs": 0, "oracle_steps": 0, "kf01": 0, "nontrivial": set(), "chain_lengths": collections.Counter(), "dep_walks": 0}
     samples = []
     n = 60 if ctx.quick() else 3000
     for _ in range(n):
@@ -224,6 +311,7 @@ def run(ctx):
         check_other(ctx, prog, stats)
         check_shared(ctx, prog, stats)
         check_shared_def(ctx, prog, stats)
+        check_dep_walk(ctx, gen_dep_walk(ctx.rng), stats)
         if len(samples) < 2:
             samples.append({"defs": prog["defs"], "call": prog["calls"][0]})
         if len(ctx.violations) > 3:
@@ -231,12 +319,17 @@ def run(ctx):
     return {"evaluations": stats["evaluations"], "distinct_nontrivial": len(stats["nontrivial"]),
             "rule": "random programs (as C02, fixed arity) with 70% of the methods delegating through call_next; a case (world, methods, call) is non-trivial when at least one body ran; distinct by content",
             "samples": samples, "programs": stats["programs"], "visit_chain_length_histogram": {str(k): v for k, v in stats["chain_lengths"].items()},
-            "oracle_steps_against_reduced_functions": stats["oracle_steps"], "walks_with_call_next_on_another_class": stats["other_class_walks"], "walks_after_a_copy_sharing_the_methods_was_used": stats["shared_walks"], "walks_over_closures_of_one_def": stats["shared_def_walks"], "deviations_attributed_to_KF-01": stats["kf01"],
+            "oracle_steps_against_reduced_functions": stats["oracle_steps"], "walks_with_call_next_on_another_class": stats["other_class_walks"], "walks_after_a_copy_sharing_the_methods_was_used": stats["shared_walks"], "walks_over_closures_of_one_def": stats["shared_def_walks"], "walks_through_value_dependent_ranks": stats["dep_walks"], "deviations_attributed_to_KF-01": stats["kf01"],
             "traces_validated_against_impl": stats["evaluations"]}
 
 
 def replay(ctx, payload):
     prog = payload["case"]
+    if prog.get("dep_walk"):
+        st = {"evaluations": 0, "dep_walks": 0, "oracle_steps": 0, "chain_lengths": collections.Counter()}
+        before = len(ctx.violations)
+        check_dep_walk(ctx, prog, st)
+        return len(ctx.violations) > before
     if prog.get("shared_def"):
         stats = collections.Counter()
         before = len(ctx.violations)
